@@ -147,7 +147,15 @@ fn ops(quick: bool) -> Vec<Op> {
         run: Box::new(|rng, n| {
             let p = DensePolynomial::<Fr>::from_coefficients_vec(rand_vec(rng, n, true));
             let x = Fr::rand(rng);
-            ser(&vec![p.evaluate(&x), p.evaluate(&Fr::zero()), p.evaluate(&Fr::from(1u64))])
+            // a coefficient vector with trailing zeros (reachable through the public field / DerefMut / deserialization):
+            // serial Horner evaluation does not care, so the parallel one must not either
+            let mut c2: Vec<Fr> = rand_vec(rng, n, true);
+            c2.extend([Fr::zero(), Fr::zero()]);
+            if n > 3 {
+                c2[n - 1] = Fr::zero();
+            }
+            let p2 = DensePolynomial::<Fr> { coeffs: c2 };
+            ser(&vec![p.evaluate(&x), p.evaluate(&Fr::zero()), p.evaluate(&Fr::from(1u64)), p2.evaluate(&x)])
         }),
     });
     v.push(Op {
